@@ -129,6 +129,14 @@ func (c *Canonicalizer) CanonicalizeFunction(fn *ssa.Function) string {
 		c.normalizeValue(fv, fmt.Sprintf("fv%d", i))
 	}
 
+	// References to the function itself (recursion) and to its own function literals are
+	// rendered positionally; rendering them by name would make the fingerprint change when
+	// the function is merely renamed.
+	c.registerMap[fn] = "<func_ref:self>"
+	for i, anon := range fn.AnonFuncs {
+		c.registerMap[anon] = fmt.Sprintf("<func_ref:self$%d>", i)
+	}
+
 	c.AnalyzeLoops(fn)
 	c.hoistInvariantCalls(fn)
 	c.NormalizeInductionVariables()
